@@ -27,6 +27,19 @@ states every operation returns a value or one of the documented errors, never a 
 (`from_raw_parts` can build encoder states outside `Inv`; there the checked build panics with
 an arithmetic overflow in some cases — a panic, which C20 permits — and the correspondence
 runs and the oracle's malformed campaign cover those under std's UB precondition checks.)
+
+`usize` counters (64 bit, `usizeBits`) are checked operations as well:
+
+| 198 `self.bulk.pos() + num_inverted` (`pos`)                 | `cadd "range.pos.len+n"`                   |
+| 381 `count += num_inverted.get()` (`num_seal_words`)         | `cadd "range.nsw.count+n"`                 |
+| 406 `remaining() + num_seal_words()` (`num_words`)           | `cadd "range.nw.remaining+seal"`           |
+| 421 `Word::BITS * self.num_words()` (`num_bits`)             | `cmul "range.nb.W*nw"`                     |
+| 624–625 `NonZeroUsize::new(n.wrapping_add(1)).expect(..)`    | `Fault.panic "range.enc.num_inverted"`     |
+
+They are unreachable under `Fits c e k` (`Word::BITS · (bulk.len() + num_inverted + k + 2) <
+2^64`, room for `k` more symbols), which holds along every history from `new()` of fewer than
+`2^64 / Word::BITS − 2` symbols (`MsgFits`); the hypothesis is necessary (`from_raw_parts` with
+`num_inverted = usize::MAX`: `pos()` and `num_words()` panic with an overflow — a panic, not UB).
 -/
 namespace CV.Range
 
@@ -35,23 +48,25 @@ namespace CV.Range
     the renormalisation step returns normally; in particular `Fault.ub "range.enc.nonzero"`
     is unreachable, whatever the situation and the backend contents. -/
 theorem C20_range_enc_nonzero_safe {c : Cfg} (hc : RValid c) (bulk : List Nat) (sit : Situation)
-    {lower range : Nat} (hl : lower < 2^c.S) (hr : 0 < range) :
+    {lower range : Nat} (hl : lower < 2^c.S) (hr : 0 < range)
+    (hn : sit.held + 1 < 2^usizeBits) :
     ∃ e', renorm c bulk sit lower range = .ok e' :=
-  ⟨_, renorm_eq hc hl hr⟩
+  ⟨_, renorm_eq hc hl hr hn⟩
 
 /-- `encode_symbol` on any state satisfying the invariant, any well-formed model, any symbol
     (in the support or not): a new encoder satisfying the invariant, or `ImpossibleSymbol` —
     never a `Fault` of any kind (no UB site, no overflow, no shift, no panic). -/
 theorem C20_range_encode_no_fault {Sym : Type} {c : Cfg} (hc : RValid c) {m : Model Sym}
-    (hm : m.WellFormed c.P) {e : Encoder} (hI : Inv c e) (s : Sym) :
+    (hm : m.WellFormed c.P) {e : Encoder} (hI : Inv c e) (hf : Fits c e 1) (s : Sym) :
     (∃ e', encode c m s e = .ok e' ∧ Inv c e') ∨ encode c m s e = .error .impossible :=
-  encode_no_fault hc hm hI s
+  encode_no_fault hc hm hI hf s
 
 theorem C20_range_encode_ub_unreachable {Sym : Type} {c : Cfg} (hc : RValid c) {m : Model Sym}
-    (hm : m.WellFormed c.P) {e : Encoder} (hI : Inv c e) (s : Sym) (f : Fault) :
+    (hm : m.WellFormed c.P) {e : Encoder} (hI : Inv c e) (hf : Fits c e 1) (s : Sym)
+    (f : Fault) :
     encode c m s e ≠ .error (.fault f) := by
   intro h
-  rcases encode_no_fault hc hm hI s with ⟨e', he', _⟩ | he'
+  rcases encode_no_fault hc hm hI hf s with ⟨e', he', _⟩ | he'
   · rw [he'] at h; cases h
   · rw [he'] at h; cases h
 
@@ -87,21 +102,23 @@ theorem C20_range_decode_many_no_fault {Sym : Type} {c : Cfg} (hc : RValid c) {w
     `unseal` with its `debug_assert!`), `decoder()`, `num_words`, `num_bits`, `is_empty`, `pos`
     in any order never fault; the result is `Ok` (all symbols of the history are valid steps) -/
 theorem C20_range_history_no_fault {Sym : Type} {c : Cfg} (hc : RValid c) (ops : List (Op Sym))
-    (hv : ∀ x ∈ encSteps ops, x.Valid c) :
+    (hn : MsgFits c (encSteps ops).length) (hv : ∀ x ∈ encSteps ops, x.Valid c) :
     ∃ e, runOps c (Encoder.empty c) ops = .ok e ∧ Inv c e := by
-  rw [inspect_erasure hc ops _ (inv_empty hc) hv]
-  obtain ⟨e, he, hI, _⟩ := encodeMsg_ok (encSteps ops) (Encoder.empty c) (inv_empty hc) hv
+  rw [inspect_erasure hc ops _ (inv_empty hc) (fits_empty hn) hv]
+  obtain ⟨e, he, hI, _⟩ :=
+    encodeMsg_ok (encSteps ops) (Encoder.empty c) (inv_empty hc) (fits_empty hn) hv
   exact ⟨e, he, hI⟩
 
 /-- sealing / exporting and the size queries on any state satisfying the invariant -/
-theorem C20_range_seal_no_fault {c : Cfg} (hc : RValid c) {e : Encoder} (hI : Inv c e) :
+theorem C20_range_seal_no_fault {c : Cfg} (hc : RValid c) {e : Encoder} (hI : Inv c e)
+    (hf : Fits c e 0) :
     (∃ ws, intoCompressed c e = .ok ws) ∧ (∃ v, getCompressed c e = .ok v) ∧
-    (∃ k, numWords c e = .ok k) ∧ (∃ k, numBits c e = .ok k) ∧
+    (∃ k, numWords c e = .ok k) ∧ (∃ k, numBits c e = .ok k) ∧ (∃ p, e.pos = .ok p) ∧
     (∃ d, intoDecoder c e = .ok d) := by
-  refine ⟨⟨_, intoCompressed_eq hc hI⟩, ⟨_, getCompressed_eq hc hI⟩, ⟨_, numWords_eq hc hI⟩,
-    ⟨_, numBits_eq hc hI⟩, ?_⟩
-  obtain ⟨d, _, hf⟩ := tempDecoder_eq hc hI
-  exact ⟨d, by unfold intoDecoder; rw [intoCompressed_eq hc hI]; exact hf⟩
+  refine ⟨⟨_, intoCompressed_eq hc hI⟩, ⟨_, getCompressed_eq hc hI hf⟩,
+    ⟨_, numWords_eq hc hI hf⟩, ⟨_, numBits_eq hc hI hf⟩, ⟨_, pos_eq hc hf⟩, ?_⟩
+  obtain ⟨d, _, hfc⟩ := tempDecoder_eq hc hI hf
+  exact ⟨d, by unfold intoDecoder; rw [intoCompressed_eq hc hI]; exact hfc⟩
 
 /-- constructing, seeking and querying a decoder over any words -/
 theorem C20_range_decoder_glue_no_fault {c : Cfg} (hc : RValid c) {ws : List Nat}
@@ -115,6 +132,7 @@ theorem C20_range_decoder_glue_no_fault {c : Cfg} (hc : RValid c) {ws : List Nat
   exact seek_no_fault hc (by rw [hd]; exact hw) pos lower range
 
 example : Inv exCfg exInverted := exInverted_inv
+example : Fits exCfg exInverted 1 := by decide
 example : RValid exCfg := exCfg_valid
 example : (cutModel 1 255 256).WellFormed 8 :=
   cutModel_wf (P := 8) (by omega) (by omega) (by omega) (by omega) (by omega)
